@@ -52,3 +52,15 @@ func (h *ServerHandler) VerifActiveCommands() int32 { return atomic.LoadInt32(&h
 func (h *ServerHandler) VerifQueueLens() (int, int, int) {
 	return len(h.lines), len(h.serverMessages), len(h.maprMessages)
 }
+
+// VerifMakeGlobID calls the real makeGlobID; panicked reports a run-time panic (index out of range).
+func VerifMakeGlobID(path, glob string) (id string, panicked bool) {
+	defer func() {
+		if r := recover(); r != nil {
+			panicked = true
+		}
+	}()
+	r := &readCommand{}
+	id = r.makeGlobID(path, glob)
+	return
+}
